@@ -112,13 +112,11 @@ Inductive out :=
 Fixpoint nodup_b (l : list nat) : bool :=
   match l with [] => true | x :: r => negb (mem_nat x r) && nodup_b r end.
 
-(* well-formed: mappings and keyword arguments have distinct keys; update(self)
-   takes no keyword arguments (see notes: they are dropped by the code) *)
+(* well-formed: mappings and keyword arguments have distinct keys *)
 Definition wf_arg (a : arg) : bool :=
   match a with AMap m => nodup_b (map fst m) | _ => true end.
 Definition wf_op (o : op) : bool :=
   match o with
-  | Update ASelf kw => match kw with [] => true | _ => false end
   | Update a kw | UpdateExtend a kw => wf_arg a && nodup_b (map fst kw)
   | IOr a => wf_arg a
   | New (Some a) kw => wf_arg a && nodup_b (map fst kw)
